@@ -195,7 +195,7 @@ def judge(ctx, idx, case):
                 explicit_lookups(ctx, c, r, "while building A, after step %d" % i, problems, 2, 1)
 
     sa = interp.run(case["A"], on_step)
-    sb = interp.run(case["B"])
+    sb = common.build(case["B"])
     A, B = sa.doc, sb.doc
     derived = [("A", A)]
     for d in case["derive"]:
